@@ -1861,10 +1861,10 @@ Proof.
   unfold finish_edge. destruct d; cbn [andb].
   - destruct (mark_outputs_dirty_props (edge_outs g e) s) as [A [B C]].
     set (s1 := mark_outputs_dirty s (edge_outs g e)) in *.
-    assert (E : forall s2, st_node (set_mark (if negb (ei_phony (g_edge g e) && match ins_of s1 e with [] => true | _ => false end)
-                                            then set_ready s1 e false else s1) e VisitDone) = st_node s1).
-    { intros _. destruct (negb _); reflexivity. }
-    rewrite (E s). split; [exact A|]. split; [exact B|]. split; [discriminate|].
+    assert (E : st_node (set_mark (if negb (ei_phony (g_edge g e) && match ins_of s1 e with [] => true | _ => false end)
+                                   then set_ready s1 e false else s1) e VisitDone) = st_node s1).
+    { destruct (negb _); reflexivity. }
+    rewrite E. split; [exact A|]. split; [exact B|]. split; [discriminate|].
     intros _ o Ho. apply C. left; exact Ho.
   - split; [intros n; split; reflexivity|]. split; [reflexivity|]. split; [reflexivity|discriminate].
 Qed.
@@ -1961,5 +1961,798 @@ Proof.
               ** inversion Hc; subst. right; split; [left; reflexivity|exact Di].
            ++ right; split; [right; exact Hc|exact Dc].
 Qed.
+
+(* ---- the output checks *)
+Definition lt_opt (x : Z) (mz : option Z) : Prop := match mz with Some m => x < m | None => False end.
+
+Lemma ltb_opt x mz : (match mz with Some m => Z.ltb x m | None => false end) = true <-> lt_opt x mz.
+Proof. destruct mz as [m|]; cbn [lt_opt]; [apply Z.ltb_lt|split; [discriminate|intros []]]. Qed.
+
+Lemma lt_opt_mri s x mri : lt_opt x (mri_mtime s mri) <-> lt_mri s x mri.
+Proof. destruct mri; cbn [mri_mtime lt_opt lt_mri]; tauto. Qed.
+
+Lemma time_check e o mz (mt : Z) :
+  ((negb (used_restat g w e o) && match mz with Some m => Z.ltb mt m | None => false end)%bool = true <->
+   used_restat g w e o = false /\ lt_opt mt mz).
+Proof. rewrite Bool.andb_true_iff, Bool.negb_true_iff, ltb_opt. tauto. Qed.
+
+Lemma odf_spec e o mz s :
+  ns_mtime (nd s o) = w_mtime w o ->
+  ns_exists (nd s o) = (if Z.eqb (w_mtime w o) 0 then ExMissing else ExExists) ->
+  (output_dirty_first g w e o mz s = true <->
+   base_reason g w e o \/ time_reason g w (fun x => lt_opt x mz) e o).
+Proof.
+  intros Hm Hex. unfold output_dirty_first, n_exists. rewrite Hex, Hm.
+  unfold base_reason, time_reason.
+  destruct (Z.eqb_spec (w_mtime w o) 0) as [Hz|Hnz]; cbn [negb].
+  - split; [intros _; left; left; exact Hz|reflexivity].
+  - change (ei_restat (g_edge g e) && match w_blog w o with Some _ => true | None => false end)%bool
+      with (used_restat g w e o).
+    pose proof (time_check e o mz (w_mtime w o)) as T1.
+    destruct (negb (used_restat g w e o) && match mz with Some m => Z.ltb (w_mtime w o) m | None => false end)%bool.
+    + split; [intros _; right; left; apply T1; reflexivity|reflexivity].
+    + assert (NT1 : ~ (used_restat g w e o = false /\ lt_opt (w_mtime w o) mz)) by (rewrite <- T1; discriminate).
+      destruct (w_blog w o) as [[h lm]|].
+      * destruct (ei_generator (g_edge g e)); cbn [negb andb].
+        -- rewrite ltb_opt. split; [intros H; right; right; exact H|].
+           intros [[H|[H _]]|[H|H]]; [contradiction|discriminate|contradiction|exact H].
+        -- destruct (N.eqb_spec (ei_hash (g_edge g e)) h) as [Heq|Hne]; cbn [negb].
+           ++ rewrite ltb_opt. split; [intros H; right; right; exact H|].
+              intros [[H|[_ H]]|[H|H]]; [contradiction|congruence|contradiction|exact H].
+           ++ split; [intros _; left; right; split; [reflexivity|congruence]|reflexivity].
+      * destruct (ei_generator (g_edge g e)); cbn [negb].
+        -- split; [discriminate|]. intros [[H|H]|[H|[]]]; [contradiction|discriminate|contradiction].
+        -- split; [intros _; left; right; reflexivity|reflexivity].
+Qed.
+
+Lemma oda_again_spec e o mz s :
+  ns_mtime (nd s o) = w_mtime w o ->
+  (output_dirty_again g w e o mz s = true <-> time_reason g w (fun x => lt_opt x mz) e o).
+Proof.
+  intros Hm. unfold output_dirty_again, time_reason. rewrite Hm.
+  change (ei_restat (g_edge g e) && match w_blog w o with Some _ => true | None => false end)%bool
+    with (used_restat g w e o).
+  pose proof (time_check e o mz (w_mtime w o)) as T1.
+  destruct (negb (used_restat g w e o) && match mz with Some m => Z.ltb (w_mtime w o) m | None => false end)%bool.
+  - split; [intros _; left; apply T1; reflexivity|reflexivity].
+  - assert (NT1 : ~ (used_restat g w e o = false /\ lt_opt (w_mtime w o) mz)) by (rewrite <- T1; discriminate).
+    destruct (w_blog w o) as [[h lm]|].
+    + rewrite ltb_opt. tauto.
+    + split; [discriminate|tauto].
+Qed.
+
+Lemma oda_nonphony e mri : ei_phony (g_edge g e) = false -> forall outs s,
+  outputs_dirty_all g w e outs mri s =
+  (existsb (fun o => output_dirty_first g w e o (mri_mtime s mri) s) outs, s).
+Proof.
+  intros Hp. induction outs as [|o outs IH]; intros s; cbn [outputs_dirty_all existsb]; [reflexivity|].
+  rewrite Hp. destruct (output_dirty_first g w e o (mri_mtime s mri) s); cbn [orb]; [reflexivity|apply IH].
+Qed.
+
+Definition phony_mtime (s : sstate) (mri : option node) (o : node) : Z :=
+  if n_exists (nd s o) then ns_mtime (nd s o)
+  else match mri with
+       | Some m => Z.max (ns_mtime (nd s o)) (ns_mtime (nd s m))
+       | None => ns_mtime (nd s o)
+       end.
+
+Lemma phony_output_dirty_props e o mri s d s' :
+  phony_output_dirty g e o mri s = (d, s') ->
+  st_edge s' = st_edge s /\
+  (forall n, n <> o -> nd s' n = nd s n) /\
+  ns_dirty (nd s' o) = ns_dirty (nd s o) /\ ns_exists (nd s' o) = ns_exists (nd s o) /\
+  (d = true <-> ins_of s e = [] /\ ei_vals (g_edge g e) = [] /\ n_exists (nd s o) = false) /\
+  (d = false -> ns_mtime (nd s' o) = phony_mtime s mri o).
+Proof.
+  unfold phony_output_dirty.
+  set (c := (match ins_of s e with [] => true | _ => false end
+             && match ei_vals (g_edge g e) with [] => true | _ => false end
+             && negb (n_exists (nd s o)))%bool).
+  assert (Hc : c = true <-> ins_of s e = [] /\ ei_vals (g_edge g e) = [] /\ n_exists (nd s o) = false).
+  { subst c. destruct (ins_of s e); destruct (ei_vals (g_edge g e)); destruct (n_exists (nd s o));
+      cbn [andb negb]; split; try discriminate; try (intros [A [B C]]; discriminate); auto. }
+  destruct c.
+  - intros H; injection H as Hd1 Hs1; subst d s'.
+    split; [reflexivity|]. split; [reflexivity|]. split; [reflexivity|]. split; [reflexivity|].
+    split; [split; [intros _; apply Hc; reflexivity|reflexivity]|discriminate].
+  - assert (Hd : false = true <-> ins_of s e = [] /\ ei_vals (g_edge g e) = [] /\ n_exists (nd s o) = false) by exact Hc.
+    destruct mri as [m|]; intros H; injection H as Hd1 Hs1; subst d s'.
+    + unfold update_phony_mtime, phony_mtime. destruct (n_exists (nd s o)) eqn:Hx.
+      * split; [reflexivity|]. split; [reflexivity|]. split; [reflexivity|]. split; [reflexivity|].
+        split; [exact Hd|reflexivity].
+      * split; [reflexivity|]. split; [intros n Hn; apply upd_node_other; exact Hn|].
+        rewrite upd_node_same. cbn [ns_dirty ns_exists ns_mtime].
+        split; [reflexivity|]. split; [reflexivity|]. split; [exact Hd|reflexivity].
+    + unfold phony_mtime.
+      split; [reflexivity|]. split; [reflexivity|]. split; [reflexivity|]. split; [reflexivity|].
+      split; [exact Hd|]. intros _. destruct (n_exists (nd s o)); reflexivity.
+Qed.
+
+Lemma oda_phony e mri : ei_phony (g_edge g e) = true -> forall outs,
+  (forall m, mri = Some m -> ~ In m outs) -> forall s d s',
+  outputs_dirty_all g w e outs mri s = (d, s') ->
+  st_edge s' = st_edge s /\
+  (forall n, ~ In n outs -> nd s' n = nd s n) /\
+  (forall n, ns_dirty (nd s' n) = ns_dirty (nd s n) /\ ns_exists (nd s' n) = ns_exists (nd s n)) /\
+  (d = true <-> ins_of s e = [] /\ ei_vals (g_edge g e) = [] /\
+                exists o, In o outs /\ n_exists (nd s o) = false) /\
+  (d = false -> forall o, In o outs -> ns_mtime (nd s' o) = phony_mtime s mri o).
+Proof.
+  intros Hp. induction outs as [|a outs IH]; intros Hmri s d s' H; cbn [outputs_dirty_all] in H.
+  - injection H as Hd Hs; subst d s'.
+    split; [reflexivity|]. split; [reflexivity|]. split; [intros n; split; reflexivity|].
+    split; [split; [discriminate|intros [_ [_ [o [[] _]]]]]|intros _ o []].
+  - rewrite Hp in H. destruct (phony_output_dirty g e a mri s) as [d1 s1] eqn:H1.
+    destruct (phony_output_dirty_props e a mri s d1 s1 H1) as [E1 [O1 [D1 [X1 [C1 M1]]]]].
+    assert (DX1 : forall n, ns_dirty (nd s1 n) = ns_dirty (nd s n) /\ ns_exists (nd s1 n) = ns_exists (nd s n)).
+    { intros n. destruct (Nat.eq_dec n a) as [->|Hne]; [split; assumption|]. rewrite (O1 n Hne). split; reflexivity. }
+    destruct d1.
+    + injection H as Hd Hs; subst d s'.
+      split; [exact E1|]. split; [intros n Hn; apply O1; intros ->; apply Hn; left; reflexivity|].
+      split; [exact DX1|]. split; [|discriminate].
+      split; [intros _|reflexivity].
+      destruct (proj1 C1 eq_refl) as [A [B C]]. split; [exact A|]. split; [exact B|].
+      exists a. split; [left; reflexivity|exact C].
+    + assert (Hmri' : forall m, mri = Some m -> ~ In m outs).
+      { intros m Hm Hin. apply (Hmri m Hm). right; exact Hin. }
+      destruct (IH Hmri' s1 d s' H) as [E2 [O2 [DX2 [C2 M2]]]].
+      assert (Hex : forall o, n_exists (nd s1 o) = n_exists (nd s o)).
+      { intros o. unfold n_exists. rewrite (proj2 (DX1 o)). reflexivity. }
+      split; [rewrite E2; exact E1|].
+      split.
+      { intros n Hn. rewrite O2 by (intros Hin; apply Hn; right; exact Hin).
+        apply O1. intros ->. apply Hn. left; reflexivity. }
+      split.
+      { intros n. destruct (DX2 n) as [A B]. destruct (DX1 n) as [A' B']. split; congruence. }
+      split.
+      { rewrite C2. rewrite E1. split.
+        - intros [A [B [o [Ho Hx]]]]. split; [exact A|]. split; [exact B|].
+          exists o. split; [right; exact Ho|rewrite <- Hex; exact Hx].
+        - intros [A [B [o [[<-|Ho] Hx]]]].
+          + exfalso. assert (false = true) by (apply C1; split; [exact A|split; [exact B|exact Hx]]). discriminate.
+          + split; [exact A|]. split; [exact B|]. exists o. split; [exact Ho|rewrite Hex; exact Hx]. }
+      intros Hd o Ho.
+      assert (Hm1 : forall m, mri = Some m -> ns_mtime (nd s1 m) = ns_mtime (nd s m)).
+      { intros m Hm. rewrite O1; [reflexivity|]. intros ->. apply (Hmri a Hm). left; reflexivity. }
+      destruct (in_dec Nat.eq_dec o outs) as [Hin|Hnin].
+      * rewrite (M2 Hd o Hin). unfold phony_mtime. rewrite Hex.
+        destruct (Nat.eq_dec o a) as [->|Hne].
+        -- rewrite (M1 eq_refl). unfold phony_mtime.
+           destruct (n_exists (nd s a)); [reflexivity|].
+           destruct mri as [m|]; [|reflexivity]. rewrite (Hm1 m eq_refl). lia.
+        -- rewrite (O1 o Hne). destruct (n_exists (nd s o)); [reflexivity|].
+           destruct mri as [m|]; [|reflexivity]. rewrite (Hm1 m eq_refl). reflexivity.
+      * destruct Ho as [<-|Ho]; [|contradiction].
+        rewrite (O2 a Hnin). apply M1. reflexivity.
+Qed.
+
+(* ---- the invariant of the scan about node states *)
+Hypothesis Hwf : wf_spec g.
+
+Lemma wf_out_prod e o : In o (edge_outs g e) -> g_producer g o = Some e.
+Proof. apply (proj1 Hwf). Qed.
+Lemma wf_prod_out n e : g_producer g n = Some e -> In n (edge_outs g e).
+Proof. apply (proj1 (proj2 Hwf)). Qed.
+
+Definition node_final (s : sstate) (n : node) : Prop :=
+  match g_producer g n with
+  | None => n_known (nd s n) = true
+  | Some e => mark_of s e = VisitDone
+  end.
+
+Definition node_ok (s : sstate) (n : node) : Prop :=
+  (ns_dirty (nd s n) = true <-> must_dirty g w n) /\
+  (ns_dirty (nd s n) = false -> forall x, x < ns_mtime (nd s n) <-> newer_than g w x n).
+
+Definition SInv (s : sstate) : Prop :=
+  (forall n, node_final s n -> node_ok s n) /\
+  (forall n e, g_producer g n = Some e -> mark_of s e = VisitNone -> nd s n = init_nstate) /\
+  (forall e, mark_of s e = VisitNone ->
+             es_deps_loaded (st_edge s e) = false /\ ins_of s e = ei_ins (g_edge g e)).
+
+Definition settled (s : sstate) (n : node) : Prop :=
+  match g_producer g n with
+  | None => n_known (nd s n) = true
+  | Some e => mark_of s e <> VisitNone
+  end.
+
+(* what a successful visit does to the rest: [ext] on the edges, settled nodes untouched *)
+Definition nfr (a b : sstate) : Prop := forall n, settled a n -> nd b n = nd a n.
+Definition vrel (a b : sstate) : Prop := ext a b /\ nfr a b.
+
+Lemma node_ok_eq a b n : nd b n = nd a n -> node_ok a n -> node_ok b n.
+Proof. intros E H. unfold node_ok. rewrite E. exact H. Qed.
+
+Lemma settled_vrel a b n : vrel a b -> settled a n -> settled b n.
+Proof.
+  intros [E F] H. pose proof (F n H) as Hn. unfold settled in *.
+  destruct (g_producer g n) as [e|].
+  - rewrite (ext_marked a b e E H). exact H.
+  - rewrite Hn. exact H.
+Qed.
+
+Lemma vrel_refl a : vrel a a.
+Proof. split; [apply ext_refl|intros n _; reflexivity]. Qed.
+
+Lemma vrel_trans a b c : vrel a b -> vrel b c -> vrel a c.
+Proof.
+  intros H K. split; [apply (ext_trans a b c); [apply H|apply K]|].
+  intros n Hn. rewrite (proj2 K n (settled_vrel a b n H Hn)). apply (proj2 H n Hn).
+Qed.
+
+Lemma final_settled s n : node_final s n -> settled s n.
+Proof.
+  unfold node_final, settled. destruct (g_producer g n); [|tauto]. intros ->. discriminate.
+Qed.
+
+Lemma final_vrel a b n : vrel a b -> node_final a n -> node_final b n /\ nd b n = nd a n.
+Proof.
+  intros V H. pose proof (proj2 V n (final_settled a n H)) as Hn. split; [|exact Hn].
+  unfold node_final in *. destruct (g_producer g n) as [e|].
+  - apply (ext_done a b e (proj1 V) H).
+  - rewrite Hn. exact H.
+Qed.
+
+(* a local step in the frame of [e]: the other edges and the nodes outside outs(e) are kept *)
+Definition lstep (e : edge) (a b : sstate) : Prop :=
+  (forall e', e' <> e -> st_edge b e' = st_edge a e') /\
+  (forall n, ~ In n (edge_outs g e) -> nd b n = nd a n).
+
+Lemma lstep_refl e a : lstep e a a.
+Proof. split; reflexivity. Qed.
+Lemma lstep_trans e a b c : lstep e a b -> lstep e b c -> lstep e a c.
+Proof.
+  intros [H1 H2] [K1 K2]. split.
+  - intros e' Hne. rewrite (K1 e' Hne). apply H1; exact Hne.
+  - intros n Hn. rewrite (K2 n Hn). apply H2; exact Hn.
+Qed.
+Lemma lstep_of_local e a b : local e a b -> st_node b = st_node a -> lstep e a b.
+Proof. intros [H _] E. split; [exact H|]. intros n _. rewrite E. reflexivity. Qed.
+
+(* final nodes are not outputs of an edge that is in the stack *)
+Lemma final_not_out s e n : mark_of s e = VisitInStack -> node_final s n -> ~ In n (edge_outs g e).
+Proof.
+  intros Hm Hf Hin. unfold node_final in Hf. rewrite (wf_out_prod e n Hin) in Hf. congruence.
+Qed.
+
+Lemma lstep_final e a b n :
+  lstep e a b -> mark_of a e = VisitInStack -> mark_of b e = VisitInStack ->
+  (node_final a n <-> node_final b n) /\ (node_final a n -> nd b n = nd a n).
+Proof.
+  intros [L1 L2] Ma Mb.
+  assert (Hn : forall s, mark_of s e = VisitInStack -> node_final s n -> ~ In n (edge_outs g e))
+    by (intros s0 Hs Hf; apply (final_not_out s0 e n Hs Hf)).
+  split.
+  - unfold node_final. destruct (g_producer g n) as [e'|] eqn:Hp.
+    + destruct (Nat.eq_dec e' e) as [->|Hne]; [rewrite Ma, Mb; tauto|]. rewrite (L1 e' Hne). tauto.
+    + assert (~ In n (edge_outs g e)) by (intros Hin; rewrite (wf_out_prod e n Hin) in Hp; discriminate).
+      rewrite (L2 n H). tauto.
+  - intros Hf. apply L2. apply (Hn a Ma Hf).
+Qed.
+
+Lemma SInv_lstep e a b :
+  SInv a -> lstep e a b -> mark_of a e <> VisitDone -> mark_of b e = VisitInStack -> SInv b.
+Proof.
+  intros [S1 [S2 S3]] [L1 L2] Ma Mb. split; [|split].
+  - intros n Hf. unfold node_final in Hf. destruct (g_producer g n) as [e'|] eqn:Hp.
+    + assert (Hne : e' <> e) by (intros ->; congruence).
+      assert (Hno : ~ In n (edge_outs g e)) by (intros Hin; rewrite (wf_out_prod e n Hin) in Hp; congruence).
+      apply (node_ok_eq a b n (L2 n Hno)). apply S1. unfold node_final. rewrite Hp, <- (L1 e' Hne). exact Hf.
+    + assert (Hno : ~ In n (edge_outs g e)) by (intros Hin; rewrite (wf_out_prod e n Hin) in Hp; discriminate).
+      apply (node_ok_eq a b n (L2 n Hno)). apply S1. unfold node_final. rewrite Hp, <- (L2 n Hno). exact Hf.
+  - intros n e' Hp Hm. assert (Hne : e' <> e) by (intros ->; congruence).
+    assert (Hno : ~ In n (edge_outs g e)) by (intros Hin; rewrite (wf_out_prod e n Hin) in Hp; congruence).
+    rewrite (L2 n Hno). apply (S2 n e' Hp). rewrite <- (L1 e' Hne). exact Hm.
+  - intros e' Hm. assert (Hne : e' <> e) by (intros ->; congruence).
+    rewrite (L1 e' Hne) in *. apply S3. exact Hm.
+Qed.
+
+(* closing the frame: all that is left to show is that the outputs of [e] are right *)
+Lemma SInv_finish e a d :
+  SInv a -> mark_of a e = VisitInStack ->
+  (forall o, In o (edge_outs g e) -> node_ok (finish_edge g a e d) o) ->
+  SInv (finish_edge g a e d).
+Proof.
+  intros [S1 [S2 S3]] Ma Hout.
+  destruct (finish_edge_props g e a d) as [A9 [M9 I9]].
+  destruct (st_node_finish_edge e a d) as [_ [N9 _]].
+  set (b := finish_edge g a e d) in *.
+  split; [|split].
+  - intros n Hf. unfold node_final in Hf. destruct (g_producer g n) as [e'|] eqn:Hp.
+    + destruct (Nat.eq_dec e' e) as [->|Hne]; [apply Hout; apply wf_prod_out; exact Hp|].
+      assert (Hno : ~ In n (edge_outs g e)) by (intros Hin; rewrite (wf_out_prod e n Hin) in Hp; congruence).
+      apply (node_ok_eq a b n (N9 n Hno)). apply S1. unfold node_final. rewrite Hp, <- (A9 e' Hne). exact Hf.
+    + assert (Hno : ~ In n (edge_outs g e)) by (intros Hin; rewrite (wf_out_prod e n Hin) in Hp; discriminate).
+      apply (node_ok_eq a b n (N9 n Hno)). apply S1. unfold node_final. rewrite Hp, <- (N9 n Hno). exact Hf.
+  - intros n e' Hp Hm. assert (Hne : e' <> e) by (intros ->; congruence).
+    assert (Hno : ~ In n (edge_outs g e)) by (intros Hin; rewrite (wf_out_prod e n Hin) in Hp; congruence).
+    rewrite (N9 n Hno). apply (S2 n e' Hp). rewrite <- (A9 e' Hne). exact Hm.
+  - intros e' Hm. assert (Hne : e' <> e) by (intros ->; congruence).
+    rewrite (A9 e' Hne) in *. apply S3. exact Hm.
+Qed.
+
+(* ---- inversion of the specification at an output / at a node *)
+Lemma must_dirty_out_inv o e :
+  must_dirty g w o -> g_producer g o = Some e ->
+  (exists i, In i (spec_ins g w e) /\ must_dirty g w i) \/
+  (ei_phony (g_edge g e) = true /\ ei_ins (g_edge g e) = [] /\ ei_vals (g_edge g e) = [] /\
+   exists o', In o' (ei_outs (g_edge g e)) /\ w_mtime w o' = 0) \/
+  (ei_phony (g_edge g e) = false /\
+   exists o', In o' (ei_outs (g_edge g e)) /\
+              out_reason g w (fun x => exists i, In i (spec_ins g w e) /\ newer_than g w x i) e o') \/
+  spec_load g w e = LdFail.
+Proof.
+  intros H Hp. inversion H as [n Hn Hz|n e0 i Hn Hi Hd|n e0 o' Hn Hph Hin Hv Ho Hz|n e0 o' Hn Hph Ho Hr|n e0 Hn Hl]; subst.
+  - congruence.
+  - rewrite Hp in Hn. inversion Hn; subst e0. left. exists i. split; assumption.
+  - rewrite Hp in Hn. inversion Hn; subst e0. right; left.
+    split; [exact Hph|]. split; [exact Hin|]. split; [exact Hv|]. exists o'. split; assumption.
+  - rewrite Hp in Hn. inversion Hn; subst e0. right; right; left. split; [exact Hph|]. exists o'. split; assumption.
+  - rewrite Hp in Hn. inversion Hn; subst e0. right; right; right. exact Hl.
+Qed.
+
+Lemma must_dirty_leaf_inv n : must_dirty g w n -> g_producer g n = None -> w_mtime w n = 0.
+Proof. intros H Hp. inversion H; subst; congruence. Qed.
+
+Lemma newer_file x n : w_mtime w n <> 0 -> (newer_than g w x n <-> x < w_mtime w n).
+Proof.
+  intros Hnz. split.
+  - intros H. inversion H; subst; [assumption|contradiction|contradiction].
+  - intros H. apply nt_file; assumption.
+Qed.
+
+Lemma newer_missing_phony x n e :
+  w_mtime w n = 0 -> g_producer g n = Some e -> ei_phony (g_edge g e) = true ->
+  (newer_than g w x n <-> x < 0 \/ exists i, In i (nonoo_ins g e) /\ newer_than g w x i).
+Proof.
+  intros Hz Hp Hph. split.
+  - intros H. inversion H as [n0 Hnz _|n0 _ Hx|n0 e0 i _ Hp0 _ Hi Hn]; subst.
+    + contradiction.
+    + left; exact Hx.
+    + rewrite Hp in Hp0. inversion Hp0; subst e0. right. exists i. split; assumption.
+  - intros [Hx|[i [Hi Hn]]]; [apply nt_missing; assumption|].
+    apply (nt_phony g w x n e i); assumption.
+Qed.
+
+Lemma time_reason_iff (N N' : Z -> Prop) e o :
+  (forall x, N x <-> N' x) -> (time_reason g w N e o <-> time_reason g w N' e o).
+Proof.
+  intros H. unfold time_reason. rewrite (H (w_mtime w o)).
+  destruct (w_blog w o) as [[h m]|]; [rewrite (H m)|]; tauto.
+Qed.
+
+Lemma time_reason_mono (N N' : Z -> Prop) e o :
+  (forall x, N x -> N' x) -> time_reason g w N e o -> time_reason g w N' e o.
+Proof.
+  intros H. unfold time_reason. intros [[A B]|B]; [left; split; [exact A|apply H; exact B]|].
+  right. destruct (w_blog w o) as [[h m]|]; [apply H; exact B|exact B].
+Qed.
+
+Lemma time_reason_or (N N' : Z -> Prop) e o :
+  time_reason g w (fun x => N x \/ N' x) e o <-> time_reason g w N e o \/ time_reason g w N' e o.
+Proof.
+  unfold time_reason. destruct (w_blog w o) as [[h m]|]; tauto.
+Qed.
+
+Lemma nonoo_incl e : incl (nonoo_ins g e) (ei_ins (g_edge g e)).
+Proof.
+  unfold nonoo_ins. destruct (Nat.ltb _ _); [apply incl_refl|].
+  intros x Hx. rewrite <- (firstn_skipn (length (ei_ins (g_edge g e)) - ei_noo (g_edge g e)) (ei_ins (g_edge g e))).
+  apply in_or_app. left; exact Hx.
+Qed.
+
+Lemma sel_nonoo e :
+  sel (length (ei_ins (g_edge g e))) (ei_noo (g_edge g e)) 0 (ei_ins (g_edge g e)) = nonoo_ins g e.
+Proof.
+  rewrite sel_suffix by reflexivity. unfold nonoo_ins. rewrite Nat.sub_0_r. reflexivity.
+Qed.
+
+Section Heart.
+Variable visit : node -> sv -> sres sv.
+Hypothesis Hvisit : forall i sa va sb vb,
+  visit i (sa, va) = SOk (sb, vb) -> SInv sa -> SInv sb /\ vrel sa sb /\ node_final sb i.
+Variable e : edge.
+
+Lemma visit_all_spec l sa va sb vb :
+  visit_all visit l (sa, va) = SOk (sb, vb) -> SInv sa ->
+  SInv sb /\ vrel sa sb /\ forall i, In i l -> node_final sb i.
+Proof.
+  intros V HS.
+  destruct (visit_all_rel (fun a : sv => SInv (fst a)) (fun a b : sv => vrel (fst a) (fst b))
+                          (fun (i : node) (a : sv) => node_final (fst a) i) visit
+                          (fun a => vrel_refl (fst a))
+                          (fun a b c => vrel_trans (fst a) (fst b) (fst c))
+                          (fun i a0 a1 HR HQ => proj1 (final_vrel (fst a0) (fst a1) i HR HQ)) l)
+    with (a := (sa, va)) (a' := (sb, vb)) as [A [B C]]; [|exact HS|exact V|].
+  - intros i [s0 v0] [s1 v1] _ H0 Hv. cbn [fst] in *. apply (Hvisit i s0 v0 s1 v1 Hv H0).
+  - cbn [fst] in *. split; [exact A|]. split; [exact B|exact C].
+Qed.
+
+(* nodes that are settled and not outputs of [e] are kept along the frame *)
+Definition krel (a b : sstate) : Prop :=
+  forall n, settled a n -> ~ In n (edge_outs g e) -> nd b n = nd a n /\ settled b n.
+
+Lemma krel_refl a : krel a a.
+Proof. intros n H _. split; [reflexivity|exact H]. Qed.
+Lemma krel_trans a b c : krel a b -> krel b c -> krel a c.
+Proof.
+  intros H K n Hs Hn. destruct (H n Hs Hn) as [E1 S1]. destruct (K n S1 Hn) as [E2 S2].
+  split; [congruence|exact S2].
+Qed.
+Lemma krel_lstep a b : lstep e a b -> krel a b.
+Proof.
+  intros [L1 L2] n Hs Hn. split; [apply L2; exact Hn|].
+  unfold settled in *. destruct (g_producer g n) as [e'|] eqn:Hp.
+  - assert (Hne : e' <> e) by (intros ->; apply Hn; apply wf_prod_out; exact Hp).
+    rewrite (L1 e' Hne). exact Hs.
+  - rewrite (L2 n Hn). exact Hs.
+Qed.
+Lemma krel_vrel a b : vrel a b -> krel a b.
+Proof. intros V n Hs _. split; [apply (proj2 V n Hs)|apply (settled_vrel a b n V Hs)]. Qed.
+
+Lemma lstep_finish a d : lstep e a (finish_edge g a e d).
+Proof.
+  destruct (finish_edge_props g e a d) as [A9 _]. destruct (st_node_finish_edge e a d) as [_ [N9 _]].
+  split; assumption.
+Qed.
+
+Lemma exit_dirty a :
+  SInv a -> mark_of a e = VisitInStack ->
+  (forall o, In o (edge_outs g e) -> must_dirty g w o) ->
+  SInv (finish_edge g a e true).
+Proof.
+  intros HS Ma Hmd. apply (SInv_finish e a true HS Ma).
+  intros o Ho. destruct (st_node_finish_edge e a true) as [_ [_ [_ D]]].
+  pose proof (D eq_refl o Ho) as Hd. split.
+  - split; [intros _; apply Hmd; exact Ho|intros _; exact Hd].
+  - rewrite Hd. discriminate.
+Qed.
+
+Lemma exit_clean a :
+  SInv a -> mark_of a e = VisitInStack ->
+  (forall o, In o (edge_outs g e) ->
+             ns_dirty (nd a o) = false /\ ~ must_dirty g w o /\
+             forall x, x < ns_mtime (nd a o) <-> newer_than g w x o) ->
+  SInv (finish_edge g a e false).
+Proof.
+  intros HS Ma Hout. apply (SInv_finish e a false HS Ma).
+  intros o Ho. destruct (st_node_finish_edge e a false) as [_ [_ [C _]]].
+  unfold node_ok. rewrite (C eq_refl o). destruct (Hout o Ho) as [Hd [Hn Hx]]. split.
+  - rewrite Hd. split; [discriminate|intros H; contradiction].
+  - intros _. exact Hx.
+Qed.
+
+(* a spliced range is entirely "not order-only" *)
+Lemma sel_deps s5 new_ins :
+  ins_of s5 e = ei_ins (g_edge g e) ->
+  (new_ins = [] \/ (ei_noo (g_edge g e) <= length (ei_ins (g_edge g e)))%nat) ->
+  sel (length (splice (ins_of s5 e) (ei_noo (g_edge g e)) new_ins)) (ei_noo (g_edge g e))
+      (length (ins_of s5 e) - ei_noo (g_edge g e)) new_ins = new_ins.
+Proof.
+  intros I5 [->|Hn]; [reflexivity|].
+  rewrite I5. apply sel_all.
+  - unfold splice. rewrite !app_length, firstn_length, skipn_length. lia.
+  - unfold splice. rewrite !app_length, firstn_length, skipn_length. lia.
+Qed.
+
+Lemma load_deps_spec_load s o0 outs :
+  edge_outs g e = o0 :: outs -> ns_mtime (nd s o0) = w_mtime w o0 ->
+  load_deps g w s e = spec_load g w e.
+Proof.
+  intros Ho Hm. unfold load_deps, spec_load, edge_outs in *. rewrite Ho, Hm. reflexivity.
+Qed.
+
+Lemma load_deps_none s : ei_deps (g_edge g e) = DepsNone -> load_deps g w s e = LdOk [].
+Proof. intros H. unfold load_deps. rewrite H. reflexivity. Qed.
+
+Lemma spec_load_none : ei_deps (g_edge g e) = DepsNone -> spec_load g w e = LdOk [].
+Proof. intros H. unfold spec_load. rewrite H. reflexivity. Qed.
+
+Lemma load_deps_eq s :
+  (forall o, In o (edge_outs g e) -> ns_mtime (nd s o) = w_mtime w o) ->
+  load_deps g w s e = spec_load g w e.
+Proof.
+  intros H. unfold load_deps, spec_load, edge_outs in *.
+  destruct (ei_outs (g_edge g e)) as [|o0 outs]; [reflexivity|].
+  rewrite (H o0 (or_introl eq_refl)). reflexivity.
+Qed.
+
+Lemma opt_node_eqb_refl a : opt_node_eqb a a = true.
+Proof. destruct a; cbn [opt_node_eqb]; [apply Nat.eqb_refl|reflexivity]. Qed.
+Lemma opt_node_eqb_eq a b : opt_node_eqb a b = true -> a = b.
+Proof.
+  destruct a, b; cbn [opt_node_eqb]; try discriminate; [|reflexivity].
+  intros H. apply Nat.eqb_eq in H. congruence.
+Qed.
+
+Lemma finish_dirty s3 a :
+  SInv a -> krel s3 a -> mark_of a e = VisitInStack ->
+  (forall o, In o (edge_outs g e) -> must_dirty g w o) ->
+  SInv (finish_edge g a e true) /\ krel s3 (finish_edge g a e true).
+Proof.
+  intros HS K Ma Hmd. split; [apply exit_dirty; assumption|].
+  apply (krel_trans s3 a); [exact K|]. apply krel_lstep, lstep_finish.
+Qed.
+
+Lemma finish_clean s3 a :
+  SInv a -> krel s3 a -> mark_of a e = VisitInStack ->
+  (forall o, In o (edge_outs g e) ->
+             ns_dirty (nd a o) = false /\ ~ must_dirty g w o /\
+             forall x, x < ns_mtime (nd a o) <-> newer_than g w x o) ->
+  SInv (finish_edge g a e false) /\ krel s3 (finish_edge g a e false).
+Proof.
+  intros HS K Ma Hout. split; [apply exit_clean; assumption|].
+  apply (krel_trans s3 a); [exact K|]. apply krel_lstep, lstep_finish.
+Qed.
+
+Lemma statted_missing s o : statted s o -> (n_exists (nd s o) = false <-> w_mtime w o = 0).
+Proof.
+  intros [_ [H _]]. unfold n_exists. rewrite H. destruct (Z.eqb_spec (w_mtime w o) 0); split; congruence.
+Qed.
+
+Lemma after_inputs_spec s3 vs3 s' vs' :
+  after_inputs g w visit e false s3 vs3 = SOk (s', vs') ->
+  SInv s3 -> mark_of s3 e = VisitInStack -> ins_of s3 e = ei_ins (g_edge g e) ->
+  (forall i, In i (ei_ins (g_edge g e)) -> node_final s3 i) ->
+  (forall o, In o (edge_outs g e) -> statted s3 o) ->
+  SInv s' /\ krel s3 s'.
+Proof.
+  intros H HS3 M3 I3 F3 T3.
+  unfold after_inputs in H.
+  destruct (eval_inputs g e (ins_of s3 e) 0 s3 None false) as [[s4 mri] D0] eqn:He.
+  pose proof (eval_inputs_spec e _ _ _ _ _ _ _ _ He) as Hev. cbn zeta in Hev.
+  rewrite I3, sel_nonoo in Hev. destruct Hev as [ED [EL EM]].
+  pose proof (st_node_eval_inputs g e _ _ _ _ _ _ _ _ He) as N4.
+  pose proof (local_eval_inputs g e _ _ _ _ _ _ _ _ He) as L34.
+  assert (LS34 : lstep e s3 s4) by (apply lstep_of_local; assumption).
+  assert (M4 : mark_of s4 e = VisitInStack) by (rewrite (proj1 (proj2 L34)); exact M3).
+  assert (I4 : ins_of s4 e = ei_ins (g_edge g e)) by (rewrite (proj2 (proj2 L34)); exact I3).
+  assert (HS4 : SInv s4) by (apply (SInv_lstep e s3 s4 HS3 LS34); [rewrite M3; discriminate|exact M4]).
+  assert (K34 : krel s3 s4) by (apply krel_lstep; exact LS34).
+  assert (OKi : forall i, In i (nonoo_ins g e) -> node_ok s3 i).
+  { intros i Hi. apply (proj1 HS3). apply F3. apply nonoo_incl. exact Hi. }
+  assert (HD0 : D0 = true <-> exists i, In i (nonoo_ins g e) /\ must_dirty g w i).
+  { rewrite ED. split.
+    - intros [Hf|[i [Hi Hd]]]; [discriminate|]. exists i. split; [exact Hi|]. apply (proj1 (OKi i Hi)). exact Hd.
+    - intros [i [Hi Hd]]. right. exists i. split; [exact Hi|]. apply (proj1 (OKi i Hi)). exact Hd. }
+  assert (HN0 : D0 = false -> forall x, lt_mri s3 x mri <-> exists i, In i (nonoo_ins g e) /\ newer_than g w x i).
+  { intros HD x.
+    assert (Hclean : forall i, In i (nonoo_ins g e) -> ns_dirty (nd s3 i) = false).
+    { intros i Hi. destruct (ns_dirty (nd s3 i)) eqn:Di; [|reflexivity].
+      assert (D0 = true) by (apply ED; right; exists i; split; assumption). congruence. }
+    rewrite EL. cbn [lt_mri]. split.
+    - intros [[]|[i [Hi [Di Hx]]]]. exists i. split; [exact Hi|]. apply (proj2 (OKi i Hi) Di x). exact Hx.
+    - intros [i [Hi Hx]]. right. exists i. split; [exact Hi|]. split; [apply Hclean; exact Hi|].
+      apply (proj2 (OKi i Hi) (Hclean i Hi) x). exact Hx. }
+  assert (HMf : forall m, mri = Some m -> node_final s3 m).
+  { intros m Hm. destruct (EM m Hm) as [Hc|[Hc _]]; [discriminate|]. apply F3. apply nonoo_incl. exact Hc. }
+  assert (T4 : forall o, In o (edge_outs g e) -> statted s4 o).
+  { intros o Ho. unfold statted. rewrite N4. apply T3; exact Ho. }
+  assert (Hnonoo_spec : forall i, In i (nonoo_ins g e) -> In i (spec_ins g w e)).
+  { intros i Hi. unfold spec_ins. apply in_or_app. left; exact Hi. }
+  destruct D0.
+  - (* a manifest input is dirty *)
+    assert (Hmd : forall o, In o (edge_outs g e) -> must_dirty g w o).
+    { intros o Ho. destruct (proj1 HD0 eq_refl) as [i [Hi Hd]].
+      apply (md_input g w o e i); [apply wf_out_prod; exact Ho|apply Hnonoo_spec; exact Hi|exact Hd]. }
+    cbv iota in H. destruct (load_deps_try g w s4 e); inversion H; subst s' vs'.
+    + apply finish_dirty; assumption.
+    + pose proof (local_set_deps_missing e s4 true) as Lm.
+      assert (LSm : lstep e s4 (set_deps_missing s4 e true)) by (apply lstep_of_local; [exact Lm|reflexivity]).
+      assert (Mm : mark_of (set_deps_missing s4 e true) e = VisitInStack) by (rewrite (proj1 (proj2 Lm)); exact M4).
+      apply finish_dirty; [apply (SInv_lstep e s4 _ HS4 LSm); [rewrite M4; discriminate|exact Mm]| |exact Mm|exact Hmd].
+      apply (krel_trans s3 s4); [exact K34|apply krel_lstep; exact LSm].
+  - (* all manifest inputs are clean *)
+    specialize (HN0 eq_refl). cbv iota in H.
+    assert (HnD0 : ~ exists i, In i (nonoo_ins g e) /\ must_dirty g w i).
+    { intros Hx. apply HD0 in Hx. discriminate. }
+    destruct (ei_phony (g_edge g e)) eqn:Hph.
+    + (* ---------------- phony *)
+      assert (Hdk : ei_deps (g_edge g e) = DepsNone).
+      { destruct (ei_deps (g_edge g e)) eqn:Hdk; [reflexivity| |];
+          (assert (Hne : ei_deps (g_edge g e) <> DepsNone) by (rewrite Hdk; discriminate);
+           destruct (proj2 (proj2 Hwf) e Hne) as [Hc _]; congruence). }
+      assert (Hmri_out : forall m, mri = Some m -> ~ In m (edge_outs g e)).
+      { intros m Hm. apply (final_not_out s3 e m M3). apply HMf; exact Hm. }
+      destruct (outputs_dirty_all g w e (edge_outs g e) mri s4) as [d1 s5] eqn:Ho.
+      destruct (oda_phony e mri Hph (edge_outs g e) Hmri_out s4 d1 s5 Ho) as [E5 [O5 [DX5 [C5 M5']]]].
+      assert (LS45 : lstep e s4 s5) by (split; [intros e' _; rewrite E5; reflexivity|exact O5]).
+      assert (M5 : mark_of s5 e = VisitInStack) by (rewrite E5; exact M4).
+      assert (HS5 : SInv s5) by (apply (SInv_lstep e s4 s5 HS4 LS45); [rewrite M4; discriminate|exact M5]).
+      assert (K35 : krel s3 s5) by (apply (krel_trans s3 s4 s5 K34); apply krel_lstep; exact LS45).
+      assert (Hsl : spec_load g w e = LdOk []) by (apply spec_load_none; exact Hdk).
+      destruct d1.
+      * (* an input-less phony statement whose output does not exist *)
+        destruct (proj1 C5 eq_refl) as [Hi0 [Hv0 [o' [Ho' Hx']]]]. rewrite I4 in Hi0.
+        assert (Hmd : forall o, In o (edge_outs g e) -> must_dirty g w o).
+        { intros o Hoo. apply (md_phony g w o e o'); [apply wf_out_prod; exact Hoo|exact Hph|exact Hi0|exact Hv0|exact Ho'|].
+          apply (statted_missing s4 o' (T4 o' Ho')). exact Hx'. }
+        destruct (load_deps_try g w s5 e); inversion H; subst s' vs'.
+        -- apply finish_dirty; assumption.
+        -- pose proof (local_set_deps_missing e s5 true) as Lm.
+           assert (LSm : lstep e s5 (set_deps_missing s5 e true)) by (apply lstep_of_local; [exact Lm|reflexivity]).
+           assert (Mm : mark_of (set_deps_missing s5 e true) e = VisitInStack) by (rewrite (proj1 (proj2 Lm)); exact M5).
+           apply finish_dirty; [apply (SInv_lstep e s5 _ HS5 LSm); [rewrite M5; discriminate|exact Mm]| |exact Mm|exact Hmd].
+           apply (krel_trans s3 s5); [exact K35|apply krel_lstep; exact LSm].
+      * (* clean: missing outputs take the time of the newest input *)
+        rewrite (load_deps_none s5 Hdk) in H. cbn [visit_all eval_inputs] in H.
+        rewrite opt_node_eqb_refl in H. cbn [negb andb] in H. inversion H; subst s' vs'. clear H.
+        destruct (splice_deps_props g e s5 []) as [A6 [Mk6 _]].
+        set (s6 := splice_deps g s5 e []) in *.
+        assert (LS56 : lstep e s5 s6) by (split; [exact A6|intros n _; reflexivity]).
+        assert (M6 : mark_of s6 e = VisitInStack) by (rewrite Mk6; exact M5).
+        assert (HS6 : SInv s6) by (apply (SInv_lstep e s5 s6 HS5 LS56); [rewrite M5; discriminate|exact M6]).
+        apply finish_clean; [exact HS6|apply (krel_trans s3 s5 s6 K35); apply krel_lstep; exact LS56|exact M6|].
+        intros o Hoo. change (nd s6 o) with (nd s5 o).
+        destruct (T4 o Hoo) as [Tm [Te Td]].
+        split; [rewrite (proj1 (DX5 o)); exact Td|]. split.
+        -- intros Hmd.
+           destruct (must_dirty_out_inv o e Hmd (wf_out_prod e o Hoo))
+             as [[i [Hi Hd]]|[[_ [Hi0 [Hv0 [o' [Ho' Hz]]]]]|[[Hp _]|Hl]]].
+           ++ unfold spec_ins, valid_deps in Hi. rewrite Hsl, app_nil_r in Hi.
+              apply HnD0. exists i. split; assumption.
+           ++ assert (false = true); [|discriminate]. apply C5. split; [rewrite I4; exact Hi0|]. split; [exact Hv0|].
+              exists o'. split; [exact Ho'|]. apply (statted_missing s4 o' (T4 o' Ho')). exact Hz.
+           ++ congruence.
+           ++ congruence.
+        -- intros x. rewrite (M5' eq_refl o Hoo). unfold phony_mtime.
+           destruct (n_exists (nd s4 o)) eqn:Hex.
+           ++ assert (Hnz : w_mtime w o <> 0).
+              { intros Hz. apply (statted_missing s4 o (T4 o Hoo)) in Hz. congruence. }
+              rewrite Tm. symmetry. apply newer_file. exact Hnz.
+           ++ assert (Hz : w_mtime w o = 0) by (apply (statted_missing s4 o (T4 o Hoo)); exact Hex).
+              rewrite (newer_missing_phony x o e Hz (wf_out_prod e o Hoo) Hph).
+              rewrite Tm, Hz. rewrite <- HN0. unfold lt_mri.
+              destruct mri as [m|]; [rewrite N4; lia|tauto].
+    + (* ---------------- a real command *)
+      rewrite (oda_nonphony e mri Hph) in H.
+      remember (existsb (fun o => output_dirty_first g w e o (mri_mtime s4 mri) s4) (edge_outs g e)) as d1 eqn:Ed1.
+      set (Nman := fun x => exists i, In i (nonoo_ins g e) /\ newer_than g w x i) in *.
+      set (N := fun x => exists i, In i (spec_ins g w e) /\ newer_than g w x i).
+      assert (Hodf : forall o, In o (edge_outs g e) ->
+                (output_dirty_first g w e o (mri_mtime s4 mri) s4 = true <-> out_reason g w Nman e o)).
+      { intros o Ho. rewrite (odf_spec e o _ s4 (proj1 (T4 o Ho)) (proj1 (proj2 (T4 o Ho)))).
+        unfold out_reason. apply or_iff_compat_l. apply time_reason_iff.
+        intros x. rewrite lt_opt_mri. unfold lt_mri. rewrite N4. apply HN0. }
+      assert (Hd1 : d1 = true <-> exists o, In o (edge_outs g e) /\ out_reason g w Nman e o).
+      { rewrite Ed1, existsb_exists. split; intros [o [Ho Hr]]; exists o; (split; [exact Ho|]); apply (Hodf o Ho); exact Hr. }
+      assert (HN0N : forall x, Nman x -> N x).
+      { intros x [i [Hi Hx]]. exists i. split; [apply Hnonoo_spec; exact Hi|exact Hx]. }
+      assert (Hload : load_deps g w s4 e = spec_load g w e).
+      { apply load_deps_eq. intros o Ho. apply (proj1 (T4 o Ho)). }
+      destruct d1.
+      * (* an output check fails before the deps are looked at *)
+        assert (Hmd : forall o, In o (edge_outs g e) -> must_dirty g w o).
+        { intros o Ho. destruct (proj1 Hd1 eq_refl) as [o' [Ho' Hr]].
+          apply (md_self g w o e o'); [apply wf_out_prod; exact Ho|exact Hph|exact Ho'|].
+          destruct Hr as [Hb|Ht]; [left; exact Hb|right]. revert Ht. apply time_reason_mono. exact HN0N. }
+        destruct (load_deps_try g w s4 e); inversion H; subst s' vs'.
+        -- apply finish_dirty; assumption.
+        -- pose proof (local_set_deps_missing e s4 true) as Lm.
+           assert (LSm : lstep e s4 (set_deps_missing s4 e true)) by (apply lstep_of_local; [exact Lm|reflexivity]).
+           assert (Mm : mark_of (set_deps_missing s4 e true) e = VisitInStack) by (rewrite (proj1 (proj2 Lm)); exact M4).
+           apply finish_dirty; [apply (SInv_lstep e s4 _ HS4 LSm); [rewrite M4; discriminate|exact Mm]| |exact Mm|exact Hmd].
+           apply (krel_trans s3 s4); [exact K34|apply krel_lstep; exact LSm].
+      * (* clean so far: the deps decide *)
+        assert (Hnd1 : forall o, In o (edge_outs g e) -> ~ out_reason g w Nman e o).
+        { intros o Ho Hr. assert (false = true) by (apply Hd1; exists o; split; assumption). discriminate. }
+        rewrite Hload in H. destruct (spec_load g w e) as [| |new_ins] eqn:Hsl.
+        -- (* deps missing or out of date *)
+           inversion H; subst s' vs'.
+           pose proof (local_set_deps_missing e s4 true) as Lm.
+           assert (LSm : lstep e s4 (set_deps_missing s4 e true)) by (apply lstep_of_local; [exact Lm|reflexivity]).
+           assert (Mm : mark_of (set_deps_missing s4 e true) e = VisitInStack) by (rewrite (proj1 (proj2 Lm)); exact M4).
+           apply finish_dirty; [apply (SInv_lstep e s4 _ HS4 LSm); [rewrite M4; discriminate|exact Mm]| |exact Mm|].
+           ++ apply (krel_trans s3 s4); [exact K34|apply krel_lstep; exact LSm].
+           ++ intros o Ho. apply (md_deps g w o e); [apply wf_out_prod; exact Ho|exact Hsl].
+        -- discriminate.
+        -- (* deps usable: splice, visit, re-check *)
+           assert (Hcond : new_ins = [] \/ (ei_noo (g_edge g e) <= length (ei_ins (g_edge g e)))%nat).
+           { destruct (ei_deps (g_edge g e)) eqn:Hdk.
+             - left. rewrite (spec_load_none Hdk) in Hsl. inversion Hsl; reflexivity.
+             - right. apply (proj2 (proj2 Hwf) e). rewrite Hdk; discriminate.
+             - right. apply (proj2 (proj2 Hwf) e). rewrite Hdk; discriminate. }
+           assert (Hvd : valid_deps g w e = new_ins) by (unfold valid_deps; rewrite Hsl; reflexivity).
+           destruct (splice_deps_props g e s4 new_ins) as [A6 [Mk6 Ik6]].
+           set (s6 := splice_deps g s4 e new_ins) in *.
+           assert (LS46 : lstep e s4 s6) by (split; [exact A6|intros n _; reflexivity]).
+           assert (M6 : mark_of s6 e = VisitInStack) by (rewrite Mk6; exact M4).
+           assert (HS6 : SInv s6) by (apply (SInv_lstep e s4 s6 HS4 LS46); [rewrite M4; discriminate|exact M6]).
+           destruct (visit_all visit new_ins (s6, vs3)) as [[s7 vs7]|c|e'|] eqn:V2; try discriminate.
+           destruct (visit_all_spec _ _ _ _ _ V2 HS6) as [HS7 [V67 F7]].
+           assert (E67 : st_edge s7 e = st_edge s6 e) by (apply (ext_marked s6 s7 e (proj1 V67)); rewrite M6; discriminate).
+           assert (M7 : mark_of s7 e = VisitInStack) by (rewrite E67; exact M6).
+           destruct (eval_inputs g e new_ins (length (ins_of s4 e) - ei_noo (g_edge g e)) s7 mri false)
+             as [[s8 mri2] D2] eqn:He2.
+           pose proof (eval_inputs_spec e _ _ _ _ _ _ _ _ He2) as Hev2. cbn zeta in Hev2.
+           rewrite E67, Ik6, (sel_deps s4 new_ins I4 Hcond) in Hev2. destruct Hev2 as [ED2 [EL2 EM2]].
+           pose proof (st_node_eval_inputs g e _ _ _ _ _ _ _ _ He2) as N8.
+           pose proof (local_eval_inputs g e _ _ _ _ _ _ _ _ He2) as L78.
+           assert (LS78 : lstep e s7 s8) by (apply lstep_of_local; assumption).
+           assert (M8 : mark_of s8 e = VisitInStack) by (rewrite (proj1 (proj2 L78)); exact M7).
+           assert (HS8 : SInv s8) by (apply (SInv_lstep e s7 s8 HS7 LS78); [rewrite M7; discriminate|exact M8]).
+           assert (K38 : krel s3 s8).
+           { apply (krel_trans s3 s4 s8 K34). apply (krel_trans s4 s6 s8); [apply krel_lstep; exact LS46|].
+             apply (krel_trans s6 s7 s8); [apply krel_vrel; exact V67|apply krel_lstep; exact LS78]. }
+           assert (Hkeep : forall i, node_final s3 i -> nd s7 i = nd s3 i).
+           { intros i Hf.
+             assert (LS36 : lstep e s3 s6) by (apply (lstep_trans e s3 s4 s6); assumption).
+             destruct (lstep_final e s3 s6 i LS36 M3 M6) as [Hiff Heq].
+             destruct (final_vrel s6 s7 i V67 (proj1 Hiff Hf)) as [_ E]. rewrite E. apply Heq; exact Hf. }
+           assert (OK7 : forall i, In i new_ins -> node_ok s7 i).
+           { intros i Hi. apply (proj1 HS7). apply F7. exact Hi. }
+           assert (HD2 : D2 = true <-> exists i, In i new_ins /\ must_dirty g w i).
+           { rewrite ED2. split.
+             - intros [Hf|[i [Hi Hd]]]; [discriminate|]. exists i. split; [exact Hi|]. apply (proj1 (OK7 i Hi)). exact Hd.
+             - intros [i [Hi Hd]]. right. exists i. split; [exact Hi|]. apply (proj1 (OK7 i Hi)). exact Hd. }
+           assert (Hmri7 : forall x, lt_mri s7 x mri <-> Nman x).
+           { intros x. unfold Nman. rewrite <- HN0. unfold lt_mri. destruct mri as [m|]; [|tauto].
+             rewrite (Hkeep m (HMf m eq_refl)). tauto. }
+           assert (HN2 : D2 = false -> forall x, lt_mri s7 x mri2 <-> N x).
+           { intros HD x.
+             assert (Hcl : forall i, In i new_ins -> ns_dirty (nd s7 i) = false).
+             { intros i Hi. destruct (ns_dirty (nd s7 i)) eqn:Di; [|reflexivity].
+               assert (D2 = true) by (apply ED2; right; exists i; split; assumption). congruence. }
+             rewrite EL2, Hmri7. unfold N, Nman, spec_ins. rewrite Hvd. split.
+             - intros [[i [Hi Hx]]|[i [Hi [Di Hx]]]].
+               + exists i. split; [apply in_or_app; left; exact Hi|exact Hx].
+               + exists i. split; [apply in_or_app; right; exact Hi|]. apply (proj2 (OK7 i Hi) Di x). exact Hx.
+             - intros [i [Hi Hx]]. apply in_app_or in Hi. destruct Hi as [Hi|Hi].
+               + left. exists i. split; assumption.
+               + right. exists i. split; [exact Hi|]. split; [apply Hcl; exact Hi|].
+                 apply (proj2 (OK7 i Hi) (Hcl i Hi) x). exact Hx. }
+           assert (T8 : forall o, In o (edge_outs g e) -> statted s8 o).
+           { intros o Ho. unfold statted. rewrite N8.
+             assert (Hst : settled s6 o).
+             { unfold settled. rewrite (wf_out_prod e o Ho), M6. discriminate. }
+             rewrite (proj2 V67 o Hst). apply (T4 o Ho). }
+           assert (Hcleanout : (forall o', In o' (edge_outs g e) -> ~ time_reason g w N e o') -> D2 = false ->
+                     forall o, In o (edge_outs g e) ->
+                               ns_dirty (nd s8 o) = false /\ ~ must_dirty g w o /\
+                               forall x, x < ns_mtime (nd s8 o) <-> newer_than g w x o).
+           { intros Hnt HD2f o Ho. destruct (T8 o Ho) as [Tm [Te Td]].
+             assert (Hnz : w_mtime w o <> 0).
+             { intros Hz. apply (Hnd1 o Ho). left. left. exact Hz. }
+             split; [exact Td|]. split.
+             - intros Hmd.
+               destruct (must_dirty_out_inv o e Hmd (wf_out_prod e o Ho))
+                 as [[i [Hi Hd]]|[[Hp _]|[[_ [o' [Ho' Hr]]]|Hl]]].
+               + unfold spec_ins in Hi. rewrite Hvd in Hi. apply in_app_or in Hi. destruct Hi as [Hi|Hi].
+                 * apply HnD0. exists i. split; assumption.
+                 * assert (D2 = true) by (apply HD2; exists i; split; assumption). congruence.
+               + congruence.
+               + destruct Hr as [Hb|Ht]; [apply (Hnd1 o' Ho'); left; exact Hb|apply (Hnt o' Ho'); exact Ht].
+               + congruence.
+             - intros x. rewrite Tm. symmetry. apply newer_file. exact Hnz. }
+           assert (Hpw8 : D2 = false -> forall x, lt_opt x (mri_mtime s8 mri2) <-> N x).
+           { intros HD x. rewrite lt_opt_mri. unfold lt_mri. rewrite N8. apply (HN2 HD x). }
+           inversion H; subst s' vs'. clear H.
+           destruct D2; cbn [negb andb].
+           ++ (* a recorded dep is dirty *)
+              apply finish_dirty; [exact HS8|exact K38|exact M8|].
+              intros o Ho. destruct (proj1 HD2 eq_refl) as [i [Hi Hd]].
+              apply (md_input g w o e i); [apply wf_out_prod; exact Ho| |exact Hd].
+              unfold spec_ins. rewrite Hvd. apply in_or_app. right; exact Hi.
+           ++ destruct (opt_node_eqb mri mri2) eqn:Heq; cbn [negb].
+              ** (* the newest input is still the same *)
+                 apply finish_clean; [exact HS8|exact K38|exact M8|]. apply Hcleanout; [|reflexivity].
+                 intros o' Ho' Ht. apply (Hnd1 o' Ho'). right. revert Ht. apply time_reason_iff.
+                 intros x. rewrite <- (HN2 eq_refl x), <- (opt_node_eqb_eq _ _ Heq). symmetry. apply Hmri7.
+              ** destruct (outputs_dirty_depfile g w e mri2 s8) eqn:Hdf.
+                 --- apply finish_dirty; [exact HS8|exact K38|exact M8|].
+                     intros o Ho. unfold outputs_dirty_depfile in Hdf. apply existsb_exists in Hdf.
+                     destruct Hdf as [o' [Ho' Ha]].
+                     apply (oda_again_spec e o' _ s8 (proj1 (T8 o' Ho'))) in Ha.
+                     apply (md_self g w o e o'); [apply wf_out_prod; exact Ho|exact Hph|exact Ho'|].
+                     right. apply (proj1 (time_reason_iff (fun x => lt_opt x (mri_mtime s8 mri2)) N e o' (Hpw8 eq_refl)) Ha).
+                 --- apply finish_clean; [exact HS8|exact K38|exact M8|]. apply Hcleanout; [|reflexivity].
+                     intros o' Ho' Ht.
+                     assert (Hx : outputs_dirty_depfile g w e mri2 s8 = true); [|congruence].
+                     unfold outputs_dirty_depfile. apply existsb_exists. exists o'. split; [exact Ho'|].
+                     apply (oda_again_spec e o' _ s8 (proj1 (T8 o' Ho'))).
+                     apply (proj2 (time_reason_iff (fun x => lt_opt x (mri_mtime s8 mri2)) N e o' (Hpw8 eq_refl)) Ht).
+Qed.
+
+End Heart.
 
 End SpecProofs.
